@@ -164,8 +164,22 @@ tokFilled:
 	if tok.typ == TokenBackslash {
 		// eat up the backslash
 		_, _ = lexer.GetNextToken()
+		// the list is still open: wait for the tail expression ...
+		if _, err = parser.ParserPeekNextToken(0); err != nil {
+			if err == ParserHaltRequested {
+				return SexpEnd, nil
+			}
+			return SexpNull, err
+		}
 		expr, err = parser.ParseExpression(depth + 1)
 		if err != nil {
+			return SexpNull, err
+		}
+		// ... and for the closing paren
+		if _, err = parser.ParserPeekNextToken(0); err != nil {
+			if err == ParserHaltRequested {
+				return SexpEnd, nil
+			}
 			return SexpNull, err
 		}
 
